@@ -50,7 +50,11 @@ def run(ctx):
                         ln = nsec * 256 - r.choice([0, 0, 1, 255])
                         f = discs.AbsFile(0x24, b'EDGE', False, 0, 0, start, b'', length=ln)
                         files.append(f)
-                d.vols[vi] = (starts[vi], discs.AbsCat(b'V%d' % vi, 0, 0, min(vlen, 1023), files))
+                # the catalogue's own sector count is not to be trusted: sometimes it claims more than the gap to the next volume
+                claimed = min(vlen, 1023)
+                if vi == target and k % 2 == 0:
+                    claimed = min(1023, vlen + r.choice([1, 5, 18, 200]))
+                d.vols[vi] = (starts[vi], discs.AbsCat(b'V%d' % vi, 0, 0, claimed, files))
             img = bytearray(d.encode(lambda nn: bytes(nn)))
             t = tagged_fill(regions, tracks * 18)
             img[18 * 256:] = t[18 * 256:]
